@@ -12,7 +12,8 @@ REC_NAMES = ["R", "Node", "Item", "nullable", "in", "Rec2", "Outer", "Inner", "T
 ENUM_NAMES = ["E", "Suit", "Kind", "E2"]
 FIXED_NAMES = ["F", "Md5", "F2"]
 NAMESPACES = ["", "", "ns", "a.b", "com.acme.x", "a"]
-FIELD_NAMES = ["a", "b", "c", "x", "y", "id", "next", "kids", "val", "type", "name", "k"]
+# field names and type names live in different name spaces: let them coincide
+FIELD_NAMES = ["a", "b", "c", "x", "y", "id", "next", "kids", "val", "type", "name", "k", "E", "F", "R", "Node", "Suit", "T"]
 SYMBOLS = ["A", "B", "C", "D", "HEARTS", "SPADES", "_x", "a1", "OTHER"]
 
 INT_POOL = [0, 1, -1, 63, 64, -64, -65, 8191, 8192, -8192, -8193, 2 ** 20 - 1, 2 ** 20, -2 ** 20, -2 ** 20 - 1,
@@ -57,7 +58,8 @@ class Gen:
         self.r = random.Random(seed)
         self.opt = dict(logical=False, bytes_defaults=False, hints=True, big=True, recursion=True,
                         defaults=True, dictform=True, aliases=True, max_depth=3, tuple_seq=True,
-                        float_int=True, f32_only=False, namespaces=True, zero_field=True, bytearray=True)
+                        float_int=True, f32_only=False, namespaces=True, zero_field=True, bytearray=True,
+                        omit_defaults=True)
         self.opt.update(opt)
 
     # ------------------------------------------------------------------ schemas
@@ -182,9 +184,14 @@ class Gen:
         n = r.randint(1, 5)
         out, seen = [], set()
         for _ in range(n):
+            snap_defs, snap_order = dict(ctx.defs), list(ctx.order)
             s = self.schema(ctx, ns, depth - 1, allow_union=False)
             key = self.branch_key(s, ns)
             if key in seen:
+                # drop the branch together with whatever it defined
+                ctx.defs.clear()
+                ctx.defs.update(snap_defs)
+                ctx.order[:] = snap_order
                 continue
             seen.add(key)
             out.append(s)
@@ -348,7 +355,7 @@ class Gen:
             nsx = split_full(self.full_of(s, ns))[0]
             out = {}
             for f in s["fields"]:
-                if "default" in f and r.random() < 0.4:
+                if "default" in f and self.opt["omit_defaults"] and r.random() < 0.4:
                     continue
                 ft = f["type"]
                 if depth <= 0 and isinstance(ft, list) and "null" in ft and "default" not in f and r.random() < 0.9:
@@ -631,3 +638,95 @@ def mutate(g, s, v, ctx, ns=""):
         return r.choice(opts)
 
     return walk(s, v, ns, 4)
+
+
+# ---------------------------------------------------------------------- cosmetic rewrites (C13)
+def cosmetic(g, s, ns=""):
+    """a copy of raw schema s changed only in ways the canonical form must ignore"""
+    r = g.r
+    if isinstance(s, list):
+        return [cosmetic(g, b, ns) for b in s]
+    if isinstance(s, str):
+        if s in PRIMS:
+            # simple form <-> dict form of a primitive
+            return {"type": s, "whatever": 1} if r.random() < 0.15 else s
+        # relative <-> qualified spelling of a reference
+        if "." not in s and ns and r.random() < 0.5:
+            return ns + "." + s
+        if "." in s:
+            sns, _, n = s.rpartition(".")
+            if sns == ns and r.random() < 0.5:
+                return n
+        return s
+    d = dict(s)
+    t = d["type"]
+    if t in PRIMS:
+        if len(d) == 1 and r.random() < 0.3:
+            return t
+        if r.random() < 0.3:
+            d["logicalType"] = "custom-thing"
+        return shuffle_keys(r, d)
+    if t == "array":
+        d["items"] = cosmetic(g, d["items"], ns)
+    elif t == "map":
+        d["values"] = cosmetic(g, d["values"], ns)
+    elif t in ("record", "enum", "fixed"):
+        name = d["name"]
+        if "." in name:
+            inner_ns = name.rpartition(".")[0]
+            if r.random() < 0.5:
+                # dotted -> namespace + name
+                d["name"] = name.rpartition(".")[2]
+                d["namespace"] = inner_ns
+            elif "namespace" in d and r.random() < 0.5:
+                del d["namespace"]           # ignored anyway when the name is dotted
+        else:
+            inner_ns = d.get("namespace", ns)
+            if inner_ns is None:
+                inner_ns = ""
+            k = r.random()
+            if inner_ns and k < 0.35:
+                d["name"] = inner_ns + "." + name
+                d.pop("namespace", None)
+            elif "namespace" not in d and ns and k < 0.7:
+                d["namespace"] = ns          # spell out the inherited namespace
+            elif d.get("namespace") == ns and ns and k < 0.9:
+                del d["namespace"]           # inherit instead of spelling it out
+        if r.random() < 0.4:
+            d["doc"] = "changed doc %d" % r.randint(0, 99)
+        elif "doc" in d and r.random() < 0.5:
+            del d["doc"]
+        if r.random() < 0.3:
+            d["aliases"] = ["Alias%d" % r.randint(0, 9)]
+        elif "aliases" in d and r.random() < 0.5:
+            del d["aliases"]
+        if t == "enum" and "default" in d and r.random() < 0.5:
+            del d["default"]
+        elif t == "enum" and "default" not in d and r.random() < 0.3:
+            d["default"] = d["symbols"][0]
+        if t == "record":
+            fields = []
+            for f in d.get("fields", []):
+                f = dict(f)
+                f["type"] = cosmetic(g, f["type"], inner_ns)
+                if "default" in f and r.random() < 0.4:
+                    del f["default"]
+                if r.random() < 0.3:
+                    f["doc"] = "fdoc"
+                if r.random() < 0.2:
+                    f["order"] = r.choice(["ascending", "descending", "ignore"])
+                if r.random() < 0.2:
+                    f["aliases"] = [f["name"] + "_alias"]
+                if r.random() < 0.2:
+                    f["x-custom"] = {"k": [1, 2]}
+                fields.append(shuffle_keys(r, f))
+            d["fields"] = fields
+    if r.random() < 0.3:
+        d["custom-attr"] = r.choice([1, "x", [1], {"a": None}])
+    return shuffle_keys(r, d)
+
+
+def shuffle_keys(r, d):
+    ks = list(d.keys())
+    r.shuffle(ks)
+    return {k: d[k] for k in ks}
